@@ -360,6 +360,15 @@ pub fn generate(r: &mut Rng, c: &GenCfg) -> (Universe, Prob) {
             }
         }
     }
+    // a directly requested solvable that its package does not LIST (an installed version that has
+    // left the index): legal for the types, never a candidate of any requirement
+    if c.p_foreign > 0 && !p.soft.is_empty() && r.chance(c.p_foreign, 100) {
+        let x = *r.pick(&p.soft);
+        let n = u.solvs[x as usize].name as usize;
+        if let Some(cl) = u.pkgs[n].candidates.as_mut() {
+            cl.retain(|&s| s != x);
+        }
+    }
     (u, p)
 }
 
